@@ -303,6 +303,8 @@ def run(ctx):
                 ctx.touch(f)
             nc += k
     ctx.require('R-PARALLEL element cursors', nc, 40)
+    from . import C20   # tag queries collect into Set<Tag>, remapping goes through TagMap: the table obligations are C20's, shared
+    C20.check_tables(ctx, db)
 
 
 MANIFEST = dict(
